@@ -200,7 +200,10 @@ func c01Exec(x *engine.Ctx, cc any) {
 }
 
 var c01HistoryOps = []string{"delete-artifact", "replace-by-key-only", "strip-certificate", "edit-subject", "strip-key", "change-key-algorithm",
-	"key-replaced-by-request+edit-child", "strip-key+edit-child+changed-only-run", "strip-key+delete-child", "add-child", "move-under-the-other-root"}
+	"key-replaced-by-request+edit-child", "strip-key+edit-child+changed-only-run", "strip-key+delete-child", "add-child", "move-under-the-other-root",
+	// the name is edited but the run that follows has generate-changed switched off (generate-missing only): the entity keeps a certificate
+	// whose subject is not the configured one until something else makes it due
+	"edit-subject+missing-only-run"}
 
 // c01History: the directory is not fresh - one entity's artifact or config was touched since the
 // last run. After the next successful default run every certificate must again verify under the
@@ -241,6 +244,16 @@ func c01History(x *engine.Ctx, c *c01Case) {
 		}
 		if s2 != 0 {
 			strat = s2
+		}
+	}
+	if strat&drive.Changed == 0 {
+		for _, st := range steps {
+			if c01HistoryOps[st[0]] == "move-under-the-other-root" {
+				// with change detection switched off a re-parented entity keeps the certificate its former issuer signed;
+				// which issuer it "has" is then the user's choice, not a chain gopki built in this run
+				x.Outcome("history: re-parenting without change detection (not demanded)")
+				return
+			}
 		}
 	}
 	g2 := &GenResult{W: w, Before: w.Clone(), RunStart: g.RunStart}
@@ -297,6 +310,11 @@ func c01ApplyOp(d *Dir, w *simfs.World, names []string, op, ent int) (ok bool, s
 		cfg.Subject += " renamed"
 		w.Put(cfg.Path, cfg.YAML())
 		return true, 0
+	}
+	if name == "edit-subject+missing-only-run" {
+		cfg.Subject += " renamed quietly"
+		w.Put(cfg.Path, cfg.YAML())
+		return true, drive.Missing
 	}
 	if name == "move-under-the-other-root" {
 		if cfg.Issuer == "other" || AliasOf(cfg) == "other" {
